@@ -84,6 +84,8 @@ class Gen:
         op = rng.choices(ops, [weights[o] for o in ops])[0]
         step = getattr(self, 'g_' + op)(depth)
         step['id'] = self.next_id('s')
+        if op in ('setflag', 'put', 'close', 'transfer') and rng.random() < 0.08:
+            step['early'] = rng.choice([0.5, 1])
         if op in ('scope', 'until'):
             self.scope_ids.append(step['id'])
         return step
